@@ -99,7 +99,7 @@ def via_mix(scripts, sd):
                 st["via"] = "http"
 
 
-def simulate_scripts(work, cfgname, module, num, depth, sd, workers=8, timeout=600, tag="sim"):
+def simulate_scripts(work, cfgname, module, num, depth, sd, workers=4, timeout=900, tag="sim"):
     """tlc -simulate on a Sim_* config; every behaviour prints one JSON script."""
     rc, out = tlc(work, module, cfgname, workers=workers, timeout=timeout,
                   extra=["-simulate", "num=%d" % max(1, num // workers), "-depth", str(depth), "-seed", str(sd)])
@@ -333,16 +333,23 @@ def engine(tier):
             copy_specs(work)
             scripts = hand_scripts()
             edge_stats = []
+            # the TLC runs that generate scripts, and the exhaustive model checks, run side by side
+            pool = ThreadPoolExecutor(max_workers=6)
+            gen_jobs = []
             for module, cfg, tag in TIERS[tier].get("edges", []):
-                if not os.path.exists(os.path.join(work, cfg)):
-                    continue
-                es, stt = edge_scripts(work, module, cfg, tag)
-                scripts += es
-                edge_stats.append(stt)
+                if os.path.exists(os.path.join(work, cfg)):
+                    gen_jobs.append(("edge", pool.submit(edge_scripts, work, module, cfg, tag)))
             for module, cfg, num, depth in TIERS[tier]["sim"]:
-                if not os.path.exists(os.path.join(work, cfg)):
-                    continue
-                scripts += simulate_scripts(work, cfg, module, num, depth, seed(), tag=cfg[4:-4].lower())
+                if os.path.exists(os.path.join(work, cfg)):
+                    gen_jobs.append(("sim", pool.submit(simulate_scripts, work, cfg, module, num, depth, seed(), 4, 900, cfg[4:-4].lower())))
+            mc_future = pool.submit(model_check, work, [(m, c) for m, c in TIERS[tier]["mc"] if os.path.exists(os.path.join(work, c))], 4)
+            for kind, fut in gen_jobs:
+                if kind == "edge":
+                    es, stt = fut.result()
+                    scripts += es
+                    edge_stats.append(stt)
+                else:
+                    scripts += fut.result()
             for i, sc in enumerate(scripts):
                 sc["seed"] = seed() * 1000 + i
                 # a third of the life-cycle scripts run on a slow data store (saves in flight); explicit saves racing with the
@@ -359,7 +366,8 @@ def engine(tier):
             first, nlines = monitor(traces, allnames, work)
             failing = sorted({v["formula"] for v in first})
             t2b = time.time()
-            mc = model_check(work, [(m, c) for m, c in TIERS[tier]["mc"] if os.path.exists(os.path.join(work, c))])
+            mc = mc_future.result()
+            pool.shutdown()
         with open(os.path.join(d, "scripts.ndjson"), "w") as f:
             for sc in scripts:
                 f.write(json.dumps(sc) + "\n")
